@@ -141,7 +141,7 @@ CacheAllowed(s) ==
         /\ IsTopK([i \in DOMAIN ixs |-> items[ixs[i] + 1]], items, s.limit)
 
 SearchProps(S) ==
-  IF ~Has(E, "hits") THEN C01(E, l)
+  IF ~Has(E, "hits") THEN Join2(C01(E, l), IF Has(E, "acc") THEN Res(AccFindings(E, l), <<"C19">>) ELSE NoRes)
   ELSE JoinAll(<<
          C01(E, l),
          JoinAll([i \in DOMAIN E.hits |-> C02Hit(E.hits[i], S, l)]),
@@ -176,7 +176,8 @@ TvSearch ==
 
 \* C18: the candidate list of the trigram index, against gram sets recomputed from the public tokenisation
 PrepareProps(S) ==
-  IF Has(E, "panic") THEN Join2(C01(E, l), Chk(FALSE, l, "C18", "index preparation panicked"))
+  IF Has(E, "panic") THEN JoinAll(<<C01(E, l), Chk(FALSE, l, "C18", "index preparation panicked"),
+                                     IF Has(E, "acc") THEN Res(AccFindings(E, l), <<"C19">>) ELSE NoRes>>)
   ELSE IF Len(E.qtok.words) = 0 THEN NoRes
   ELSE
   LET s == S.s  n == Len(s.records)  ixs == E.ixs
